@@ -3,7 +3,7 @@ from __future__ import annotations
 
 import ast as _ast
 
-from ..common import all_conds, conds_at, nshow, outer_field, paths, unclamped
+from ..common import saturating_move, all_conds, conds_at, nshow, outer_field, paths, unclamped
 from ..expr import C, SELF, canon, norm, posform, show, strip_epochs
 from ..model import AnalysisError
 from ._setops import BLOOM_CTX, CMS_JOIN_CTX, SECOND, alloc_lengths, cell, combine_rule, is_full_range
@@ -77,6 +77,9 @@ def join_rule(prog, rep, ctx):
         own = ("sub", ("f", SELF, "_bins", 0), ("pos", lid), 0)
         cs = [strip_epochs(posform(c)) for c in all_conds(p)]
         other = ("sub", ("f", SECOND, "_bins", 0), ("pos", lid), 0)
+        # own + other == own  says  other == 0
+        both = canon(("bin", "+", own, other))
+        cs = [("cmp", c_[1], other, C(0)) if (c_[0] == "cmp" and c_[1] in ("==", "!=") and {canon(c_[2]), canon(c_[3])} == {both, canon(own)}) else c_ for c_ in cs]
         if path_orderings(cs, other, C(0)) <= {EQ}:
             continue  # the operand's cell is 0: leaving the own cell alone is the sum
         if not (path_orderings(cs, own, C(IMIN)) <= {EQ} or path_orderings(cs, own, C(IMAX)) <= {EQ}):
@@ -115,7 +118,7 @@ def join_rule(prog, rep, ctx):
                 continue
             bad = ("no total update", "a normal path of join leaves the element total unchanged", f.where())
             break
-        if unclamped(canon(evs[0].value), (-2**63, 2**63 - 1)) != s:
+        if not saturating_move(p, evs[0], s, (-2**63, 2**63 - 1)):
             bad = (f"total = {nshow(evs[0].value)}", f"the total becomes {nshow(evs[0].value)}, expected own total + operand's total", evs[0].where())
             break
         tot_ok = True
